@@ -318,9 +318,9 @@ def stage2(mut: dict, props: list[str]) -> dict:
                 mut["verdict"] = f"caught:{pid}"
                 break
             if rc not in (0, 1) or (rc == 1 and not caught):
+                # the harness itself failed on the mutated code: remember it, but give the other checks their chance
                 mut["verdict"] = f"check-exit-{rc}:{pid}"
                 mut["checks"][pid]["tail"] = out[-600:]
-                break
     finally:
         shutil.rmtree(scratch, ignore_errors=True)
     return mut
